@@ -706,12 +706,89 @@ fn admin_check(b: &mut Built, op: &AdminOp, rng: &mut Rng, rep: &mut Report, ver
 		AdminOp::DropLast => Some(n - 1),
 		AdminOp::Reset(i, _) | AdminOp::Clear(i) => Some(*i),
 	};
-	let r = match op {
-		AdminOp::Add(new) => Db::add_column(&mut o, new.clone()),
-		AdminOp::DropLast => Db::drop_last_column(&mut o),
-		AdminOp::Reset(i, new) => Db::reset_column(&mut o, *i as u8, new.clone()),
+	let call = |o: &mut Options| match op {
+		AdminOp::Add(new) => Db::add_column(o, new.clone()),
+		AdminOp::DropLast => Db::drop_last_column(o),
+		AdminOp::Reset(i, new) => Db::reset_column(o, *i as u8, new.clone()),
 		AdminOp::Clear(i) => clear_column(dir, *i as u8),
 	};
+	// ---- one case in three: the call is first INTERRUPTED by an I/O failure at its k-th file
+	// operation (the crate's own fault injector; every later operation of the call fails too).
+	// Whatever the failed call left behind is "arbitrary content" for what follows: the metadata
+	// must still be one of the two layouts, the database must open under the layout its metadata
+	// declares with every other column intact, and the operation - repeated without the fault
+	// unless the metadata says it already took effect - must leave what C17 says it leaves.
+	let mut done_by_interrupted_call = false;
+	if rng.chance(1, 3) {
+		let k = match rng.below(4) {
+			0 => rng.range(0, 12),
+			1 => rng.range(0, 80),
+			_ => rng.range(0, 700),
+		} as usize;
+		let mut o1 = o.clone();
+		parity_db::set_number_of_allowed_io_operations(k);
+		let r1 = catch(|| call(&mut o1));
+		parity_db::set_number_of_allowed_io_operations(usize::MAX);
+		rep.count("admin_calls_with_injected_fault", 1);
+		match r1 {
+			Err(p) => return fail(format!("panic;site={};interrupted=yes", panic_site(&p)), format!("{} with an I/O failure at file operation {} panicked: {}", op.name(), k, p)),
+			Ok(Ok(())) => {
+				// the fault point lies behind the call's last file operation
+				o = o1;
+				done_by_interrupted_call = true;
+				rep.count("admin_fault_point_beyond_call", 1);
+			},
+			Ok(Err(_)) => {
+				rep.count("admin_calls_interrupted", 1);
+				evals += 2;
+				let m = match Options::load_metadata(dir) {
+					Ok(Some(m)) => m,
+					Ok(None) => return fail("interrupted_call_removed_metadata", format!("{} failed at file operation {} and left no metadata file", op.name(), k)),
+					Err(e) => return fail("interrupted_call_damaged_metadata", format!("{} failed at file operation {}; the metadata file is now unreadable: {}", op.name(), k, e)),
+				};
+				if m.salt != meta_before.salt || m.version != meta_before.version || (m.columns != cols && m.columns != expected) {
+					return fail(
+						"interrupted_call_damaged_metadata",
+						format!("{} failed at file operation {}; the metadata now lists [{}] (before: [{}], after a completed call: [{}])", op.name(), k, show_all(&m.columns), show_all(&cols), show_all(&expected)),
+					)
+				}
+				let took_effect = m.columns == expected && expected != cols;
+				if took_effect {
+					// the metadata already declares the new layout: the call counts as done
+					o.columns = expected.clone();
+					done_by_interrupted_call = true;
+					rep.count("admin_interrupted_after_metadata_switch", 1);
+				} else {
+					// old layout: the database opens under it, the other columns are intact
+					let mut oo = base_options(dir, &cols, &b.thresholds);
+					// (no statistics: a handle that collects them rewrites the statistics block in
+					// the header of every index file when it is closed, which would show up as a
+					// modification of untouched files in the comparison below)
+					oo.stats = false;
+					if let Some(rc) = removed_col {
+						oo.compression_threshold.remove(&(rc as u8));
+					}
+					match catch(|| Db::open(&oo)) {
+						Err(p) => return fail(format!("panic;site={};interrupted=yes;phase=open", panic_site(&p)), format!("opening after {} failed at file operation {} panicked: {}", op.name(), k, p)),
+						Ok(Err(e)) => return fail(format!("open_after_interrupted_call_failed;error={}", err_kind(&e)), format!("{} failed at file operation {}; Db::open under the unchanged layout now returns {}", op.name(), k, e)),
+						Ok(Ok(db)) => {
+							for c in 0..cols.len() {
+								if Some(c) == removed_col {
+									continue
+								}
+								match verify_col(&db, c as u8, &cols[c], &b.content.data[c], &b.content.removed[c]) {
+									Ok(e) => evals += e,
+									Err(f) => return fail(format!("untouched_column_changed;what={};interrupted=yes;col={}", f.failure, show(&cols[c])), format!("{} failed at file operation {}; afterwards: {}", op.name(), k, f.detail)),
+								}
+							}
+							drop(db);
+						},
+					}
+				}
+			},
+		}
+	}
+	let r = if done_by_interrupted_call { Ok(()) } else { call(&mut o) };
 	evals += 1;
 	if let Err(e) = r {
 		return fail(format!("admin_call_failed;error={}", err_kind(&e)), format!("{} returned {}", op.name(), e))
